@@ -18,7 +18,21 @@ RdFields == << Field(1, "a", B("string"), TRUE, NoDef), Field(2, "b", B("i32"), 
 Rd == [name |-> "Rd", kind |-> "struct", items |-> <<>>, target |-> B("i32"), fields |-> RdFields]
 Ru == [name |-> "Ru", kind |-> "union", items |-> <<>>, target |-> B("i32"),
        fields |-> << Field(1, "a", B("string"), FALSE, NoDef), Field(2, "b", B("i32"), FALSE, NoDef), Field(3, "c", Ref("Inner"), FALSE, NoDef) >>]
-RSchema == Support \o << Rd, Ru >>
+\* a second reader: containers of fixed-width elements, evolved among element types of the SAME width (bool / i8, i64 /
+\* double, i32 / enum), of other widths, and between list and set: equal width is not equal type
+RcFields == << Field(1, "lb", ListOf(B("bool")), FALSE, NoDef), Field(2, "sb", SetOf(B("i8")), FALSE, NoDef),
+               Field(3, "mb", MapOf(B("i8"), B("bool")), FALSE, NoDef), Field(4, "ld", ListOf(B("double")), FALSE, NoDef),
+               Field(5, "li", ListOf(B("i32")), FALSE, NoDef) >>
+Rc == [name |-> "Rc", kind |-> "struct", items |-> <<>>, target |-> B("i32"), fields |-> RcFields]
+RSchema == Support \o << Rd, Ru, Rc >>
+VariantsC(fd) ==
+  { fd }
+  \cup (CASE fd.id = 1 -> { [fd EXCEPT !.t = ListOf(B("i8"))], [fd EXCEPT !.t = ListOf(B("i16"))], [fd EXCEPT !.t = SetOf(B("bool"))] }
+          [] fd.id = 2 -> { [fd EXCEPT !.t = SetOf(B("bool"))], [fd EXCEPT !.t = ListOf(B("i8"))], [fd EXCEPT !.t = SetOf(B("i16"))] }
+          [] fd.id = 3 -> { [fd EXCEPT !.t = MapOf(B("bool"), B("bool"))], [fd EXCEPT !.t = MapOf(B("i8"), B("i8"))],
+                            [fd EXCEPT !.t = MapOf(B("bool"), B("i8"))], [fd EXCEPT !.t = MapOf(B("i16"), B("bool"))] }
+          [] fd.id = 4 -> { [fd EXCEPT !.t = ListOf(B("i64"))], [fd EXCEPT !.t = SetOf(B("double"))] }
+          [] fd.id = 5 -> { [fd EXCEPT !.t = ListOf(Ref("Color"))], [fd EXCEPT !.t = ListOf(B("i64"))], [fd EXCEPT !.t = ListOf(B("i16"))] })
 
 \* per-field evolution of the writer's version of Rd
 Variants(fd) ==
@@ -38,6 +52,7 @@ Removed == [id |-> 0]
 Extras == { <<>>, << Field(9, "x9", B("i64"), FALSE, NoDef) >>, << Field(10, "x10", Ref("Inner"), FALSE, NoDef), Field(-5, "neg", ListOf(B("string")), FALSE, NoDef) >> }
 
 VR(i) == Variants(RdFields[i]) \cup {Removed}
+VRC(i) == VariantsC(RcFields[i]) \cup {Removed}
 WriterFieldSets == { << a1, a2, a3, a4, a5 >> : a1 \in VR(1), a2 \in VR(2), a3 \in VR(3), a4 \in VR(4), a5 \in VR(5) }
 Compact(q) == SelectSeq(q, LAMBDA x : x # Removed)
 WriterDefs == { [name |-> "Rd", kind |-> "struct", items |-> <<>>, target |-> B("i32"), fields |-> Compact(q) \o ex] :
@@ -52,17 +67,22 @@ WValues(S, d) == { St(SelectSeq([ i \in 1..Len(d.fields) |-> F(d.fields[i].name,
 \* new fields, then the writer's value; only then (stage "ready") are the properties evaluated
 VARIABLES wd, v, inj, stage
 vars == <<wd, v, inj, stage>>
-WSchema == Support \o << wd, Ru >>
+\* wd.name says which reader is being evolved; the other one is carried along unchanged
+WSchema == Support \o (IF wd.name = "Rd" THEN << wd, Ru, Rc >> ELSE << Rd, Ru, wd >>)
 EmptyRd == [name |-> "Rd", kind |-> "struct", items |-> <<>>, target |-> B("i32"), fields |-> <<>>]
-Init == wd = EmptyRd /\ v = St(<<>>) /\ inj = <<>> /\ stage = 1
+Init == wd \in { EmptyRd, [EmptyRd EXCEPT !.name = "Rc"] } /\ v = St(<<>>) /\ inj = <<>> /\ stage = 1
 ChooseField == /\ stage \in 1..5
-               /\ \E x \in VR(stage) : wd' = IF x = Removed THEN wd ELSE [wd EXCEPT !.fields = Append(@, x)]
+               /\ \E x \in (IF wd.name = "Rd" THEN VR(stage) ELSE VRC(stage)) :
+                     wd' = IF x = Removed THEN wd ELSE [wd EXCEPT !.fields = Append(@, x)]
                /\ stage' = stage + 1 /\ UNCHANGED <<v, inj>>
 ChooseExtras == /\ stage = 6
-                /\ \E ex \in Extras : wd' = [wd EXCEPT !.fields = @ \o ex]
+                /\ \E ex \in (IF wd.name = "Rd" THEN Extras ELSE { <<>> }) : wd' = [wd EXCEPT !.fields = @ \o ex]
                 /\ stage' = 7 /\ UNCHANGED <<v, inj>>
+\* the container reader's values: every field set to each of two values of its type (one of them non-empty), or nothing
+CValues(S, d) == { St([ i \in 1..Len(d.fields) |-> F(d.fields[i].name, CHOOSE x \in Vals(S, d.fields[i].t) : Len(IF x.k = "map" THEN x.m ELSE x.e) = k) ]) : k \in {1, 2} }
+                 \cup { St(<<>>) }
 ChooseValue == /\ stage = 7
-               /\ \E x \in WValues(WSchema, wd) : Valid(WSchema, Ref("Rd"), x) /\ v' = x
+               /\ \E x \in (IF wd.name = "Rd" THEN WValues(WSchema, wd) ELSE CValues(WSchema, wd)) : Valid(WSchema, Ref(wd.name), x) /\ v' = x
                /\ stage' = 8 /\ UNCHANGED <<wd, inj>>
 Ready == stage = 8
 \* a second step: inject a foreign field somewhere (any depth, any boundary)
@@ -70,9 +90,9 @@ Foreign == { [id |-> 77, v |-> Num(TBool, 1)], [id |-> 78, v |-> Bin(<<1, 2, 3>>
              [id |-> 2, v |-> Limb(TI64, <<0, 0, 0, 9>>)],                                  \* known id, other wire type
              [id |-> 79, v |-> [t |-> TList, et |-> TStruct, e |-> << [t |-> TStruct, f |-> << [id |-> 1, v |-> Num(TI8, 3)] >>] >>]],
              [id |-> 80, v |-> [t |-> TMap, kt |-> TBinary, vt |-> TList, m |-> << [k |-> Bin(<<107>>), v |-> [t |-> TList, et |-> TBool, e |-> <<>>]] >>]] }
-W0 == ToWireRef(WSchema, Ref("Rd"), v)
+W0 == ToWireRef(WSchema, Ref(wd.name), v)
 \* (evolution and injection are independent concerns: injection is explored on the unevolved writer)
-DoInject == /\ Ready /\ inj = <<>> /\ Len(wd.fields) >= 5 /\ SubSeq(wd.fields, 1, 5) = RdFields
+DoInject == /\ Ready /\ inj = <<>> /\ wd.name = "Rd" /\ Len(wd.fields) >= 5 /\ SubSeq(wd.fields, 1, 5) = RdFields
             /\ \E pt \in Points(W0, <<>>), fx \in Foreign : inj' = << pt[1], pt[2], fx >>
             /\ UNCHANGED <<wd, v, stage>>
 Next == ChooseField \/ ChooseExtras \/ ChooseValue \/ DoInject
@@ -80,20 +100,20 @@ Spec == Init /\ [][Next]_vars
 
 WireTerm == IF inj = <<>> THEN W0 ELSE Inject(W0, inj[1], inj[2], inj[3])
 Bytes == Enc(WireTerm)
-Want == Project(WSchema, RSchema, Ref("Rd"), Ref("Rd"), v)
+Want == Project(WSchema, RSchema, Ref(wd.name), Ref(wd.name), v)
 
 \* Role B: the states are also the cases for the real code.  A deterministic sample (by a
 \* checksum of the encoding) is printed in compact form; the harness rebuilds W from wf.
 CONSTANTS EmitMod, EmitPick
 RECURSIVE SumSeq(_)
 SumSeq(q) == IF q = <<>> THEN 0 ELSE Head(q) + SumSeq(Tail(q))
-CaseRec == [ wf |-> wd.fields, v |-> v, inj |-> inj, b |-> Bytes ]
-EmitCase == (Ready /\ (SumSeq(Bytes) + Len(Bytes)) % EmitMod = EmitPick) => PrintT(<<"CASE", ToJson(CaseRec)>>)
+CaseRec == [ tn |-> wd.name, wf |-> wd.fields, v |-> v, inj |-> inj, b |-> Bytes ]
+EmitCase == (Ready /\ (wd.name = "Rc" \/ (SumSeq(Bytes) + Len(Bytes)) % EmitMod = EmitPick)) => PrintT(<<"CASE", ToJson(CaseRec)>>)
 ASSUME PrintT(<<"RSCHEMA", ToJson(RSchema)>>)
 
 \* injected field 2 of another wire type must not disturb; a duplicate *matching* field would overwrite,
 \* which is why the foreign field with id 2 has a wire type R does not declare
-ReferenceAgrees == Ready => EqL(DecRef(RSchema, Ref("Rd"), Bytes), Want)
-ValuePathAgrees == Ready => EqL(ValuePath(RSchema, Ref("Rd"), Bytes), Want)
-StreamPathAgrees == Ready => EqL(StreamPath(RSchema, Ref("Rd"), Bytes), Want)
+ReferenceAgrees == Ready => EqL(DecRef(RSchema, Ref(wd.name), Bytes), Want)
+ValuePathAgrees == Ready => EqL(ValuePath(RSchema, Ref(wd.name), Bytes), Want)
+StreamPathAgrees == Ready => EqL(StreamPath(RSchema, Ref(wd.name), Bytes), Want)
 =============================================================================
